@@ -262,6 +262,12 @@ pub fn c16(cx: &Ctx) -> (Vec<Violation>, Cover) {
             d.pos,
         ));
     }
+    // removal / despawn triggers of world reactors are detected by polling: same exactness
+    for d in super::polled::polled_discrepancies(cx) {
+        if wr_ew.contains(&d.inst) {
+            v.push(Violation::new("C16", format!("C16/polled-trigger/{}/{}", d.what, d.class), d.msg.clone(), d.pos));
+        }
+    }
     // entity-local data model
     #[derive(Debug)]
     enum E {
